@@ -17,7 +17,7 @@
    Buffer.WriteTo / Commit.WriteTo do (WireCommit.v, diffed byte for byte against them), decodes
    to itself whatever follows, and no strict prefix of it is accepted; logs: props/C13.v. *)
 From stdpp Require Import gmap.
-From ColumnV Require Import Bytes Ops Buffer Store StoreProofs Wire WireCommit.
+From ColumnV Require Import Bytes Ops Buffer Rewrite Store StoreProofs Wire WireCommit.
 Local Open Scope N_scope.
 
 Theorem c05_range_put_all : ∀ ops c,
@@ -62,3 +62,22 @@ Print Assumptions c05_buffer_wire.
 Theorem c05_commit_wire : safe commit_enc commit_dec commit_ok.
 Proof. exact commit_safe. Qed.
 Print Assumptions c05_commit_wire.
+
+(* Reader.Seek: a buffer read from its start yields every operation written to it (one block) *)
+Theorem c05_seek_reads_all : ∀ ops, Forall wf_op ops → read_seg (bbytes (fold_left put ops empty)) 0 = ops.
+Proof. exact seek_reads_all. Qed.
+Print Assumptions c05_seek_reads_all.
+
+(* sentence 3 at byte level: Swap* for fixed-size values and same-length byte strings overwrites the
+   operation with exactly the bytes of a put of the new value; every later reader decodes that put *)
+Theorem c05_swap_is_put : ∀ last k off v v',
+  same_shape v v' → wf_value v → wf_value v' →
+  swap_in_place (enc last (mkop k off v)) v' = enc last (mkop KPut off v').
+Proof. exact swap_is_put. Qed.
+Print Assumptions c05_swap_is_put.
+
+Theorem c05_later_reader_sees_put : ∀ last k off v v' rest,
+  last < M32 → off < M32 → same_shape v v' → wf_value v → wf_value v' →
+  next (swap_in_place (enc last (mkop k off v)) v' ++ rest) last = Some (mkop KPut off v', rest).
+Proof. exact later_reader_sees_put. Qed.
+Print Assumptions c05_later_reader_sees_put.
